@@ -13,6 +13,7 @@ import (
 	"io"
 	"os"
 	"strings"
+	"sync/atomic"
 	"time"
 
 	"github.com/pkg/sftp"
@@ -54,7 +55,67 @@ func cliFi(fi os.FileInfo, err error) (string, error) {
 	if err != nil || fi == nil {
 		return "", err
 	}
-	return fmt.Sprintf("%s size=%d mode=%v mtime=%d", fi.Name(), fi.Size(), fi.Mode(), fi.ModTime().Unix()), nil
+	return cliFiAll(fi)
+}
+
+// cliAccPanic holds the first panic raised by an accessor of a value the package handed to the caller (FileInfo,
+// *FileStat, *StatVFS): the call "returned a value" only if the value can be looked at.
+var cliAccPanic atomic.Pointer[string]
+
+// cliFiAll calls EVERY accessor of a FileInfo returned by the package (Name, Size, Mode, ModTime, IsDir, Sys and the
+// methods of the *FileStat behind Sys) under recover and renders them; the text starts as it always did
+// ("<name> size=<n> mode=<m> mtime=<t>").
+func cliFiAll(fi os.FileInfo) (s string, err error) {
+	at := "Name"
+	defer func() {
+		if r := recover(); r != nil {
+			msg := fmt.Sprintf("FileInfo.%s panicked: %v", at, r)
+			cliAccPanic.CompareAndSwap(nil, &msg)
+			s, err = "", fmt.Errorf("PANIC: %s", msg)
+		}
+	}()
+	name := fi.Name()
+	at = "Size"
+	size := fi.Size()
+	at = "Mode"
+	mode := fi.Mode()
+	_ = mode.String()
+	at = "ModTime"
+	mt := fi.ModTime()
+	_ = mt.String()
+	at = "IsDir"
+	dir := fi.IsDir()
+	at = "Sys"
+	sys := ""
+	switch st := fi.Sys().(type) {
+	case *sftp.FileStat:
+		if st != nil {
+			at = "Sys.(*FileStat)"
+			sys = fmt.Sprintf("size=%d mode=%o/%v mtime=%d/%d atime=%d/%d uid=%d gid=%d ext=%d", st.Size, st.Mode, st.FileMode(), st.Mtime, st.ModTime().Unix(), st.Atime, st.AccessTime().Unix(), st.UID, st.GID, len(st.Extended))
+		}
+	case nil:
+		sys = "nil"
+	default:
+		sys = fmt.Sprintf("%T", st)
+	}
+	return fmt.Sprintf("%s size=%d mode=%v mtime=%d dir=%v sys{%s}", name, size, mode, mt.Unix(), dir, sys), nil
+}
+
+// cliFiList renders a listing through cliFiAll (first accessor panic becomes the error).
+func cliFiList(fis []os.FileInfo, err error) (string, error) {
+	var s []string
+	for _, fi := range fis {
+		if fi == nil {
+			s = append(s, "<nil>")
+			continue
+		}
+		t, perr := cliFiAll(fi)
+		if perr != nil && err == nil {
+			err = perr
+		}
+		s = append(s, t)
+	}
+	return strings.Join(s, ","), err
 }
 
 // cliSink is an io.Writer without ReaderFrom/WriterTo shortcuts.
@@ -73,24 +134,11 @@ func cliOps() []cliOp {
 	data40 := cliPatternBytes("w", 0, 40)
 	two := sftp.MaxConcurrentRequestsPerFile(2)
 	tree := func(f *fakeSrv) { f.tree = cliTree() }
-	list := func(fis []os.FileInfo) string {
-		var s []string
-		for _, fi := range fis {
-			s = append(s, fmt.Sprintf("%s:%d:%v", fi.Name(), fi.Size(), fi.IsDir()))
-		}
-		return strings.Join(s, ",")
-	}
+	list := func(fis []os.FileInfo, err error) (string, error) { return cliFiList(fis, err) }
 	ops := []cliOp{
 		{Name: "Stat", Run: func(e *cliOpEnv) (string, error) { return cliFi(e.c.Stat("file")) }},
 		{Name: "Lstat", Run: func(e *cliOpEnv) (string, error) { return cliFi(e.c.Lstat("file")) }},
-		{Name: "ReadDir", Run: func(e *cliOpEnv) (string, error) {
-			fis, err := e.c.ReadDir("dir")
-			var s []string
-			for _, fi := range fis {
-				s = append(s, fmt.Sprintf("%s:%d", fi.Name(), fi.Size()))
-			}
-			return strings.Join(s, ","), err
-		}},
+		{Name: "ReadDir", Run: func(e *cliOpEnv) (string, error) { return cliFiList(e.c.ReadDir("dir")) }},
 		{Name: "Open", Run: func(e *cliOpEnv) (string, error) {
 			f, err := e.c.Open("file")
 			if err != nil {
@@ -143,7 +191,7 @@ func cliOps() []cliOp {
 			if err != nil || v == nil {
 				return "", err
 			}
-			return fmt.Sprintf("bsize=%d namemax=%d", v.Bsize, v.Namemax), nil
+			return cliVfsAll(v)
 		}},
 		{Name: "File.Stat", NeedFile: true, Vars: []string{"fstat-off"}, Run: func(e *cliOpEnv) (string, error) { return cliFi(e.f.Stat()) }},
 		{Name: "File.Chmod", NeedFile: true, Run: func(e *cliOpEnv) (string, error) { return "", e.f.Chmod(0o600) }},
@@ -286,14 +334,12 @@ func cliOps() []cliOp {
 		}},
 		// multi-batch listings and the composites built on them (a two-level tree, cliTree)
 		{Name: "ReadDir-batches", Fake: tree, Run: func(e *cliOpEnv) (string, error) {
-			fis, err := e.c.ReadDir("dir")
-			return list(fis), err
+			return list(e.c.ReadDir("dir"))
 		}},
 		{Name: "ReadDirContext-batches", Fake: tree, Run: func(e *cliOpEnv) (string, error) {
 			ctx, cancel := context.WithCancel(context.Background())
 			defer cancel()
-			fis, err := e.c.ReadDirContext(ctx, "dir/sub")
-			return list(fis), err
+			return list(e.c.ReadDirContext(ctx, "dir/sub"))
 		}},
 		{Name: "Walk-tree", Fake: tree, Run: func(e *cliOpEnv) (string, error) {
 			// the walker hands out errors step by step: the operation's result is every path visited and the first error
@@ -307,7 +353,15 @@ func cliOps() []cliOp {
 					}
 					continue
 				}
-				seen = append(seen, w.Path())
+				t := w.Path()
+				if fi := w.Stat(); fi != nil {
+					d, perr := cliFiAll(fi)
+					if perr != nil && first == nil {
+						first = perr
+					}
+					t += "{" + d + "}"
+				}
+				seen = append(seen, t)
 			}
 			return strings.Join(seen, ","), first
 		}},
@@ -334,13 +388,99 @@ func cliOps() []cliOp {
 }
 
 func cliOpByName(name string) *cliOp {
-	for _, o := range cliOps() {
+	for _, o := range append(cliOps(), cliValueOps()...) {
 		if o.Name == name {
 			o := o
 			return &o
 		}
 	}
 	return nil
+}
+
+// cliVfsAll looks at every field and calls every method of a *StatVFS under recover.
+func cliVfsAll(v *sftp.StatVFS) (s string, err error) {
+	defer func() {
+		if r := recover(); r != nil {
+			msg := fmt.Sprintf("StatVFS accessor panicked: %v", r)
+			cliAccPanic.CompareAndSwap(nil, &msg)
+			s, err = "", fmt.Errorf("PANIC: %s", msg)
+		}
+	}()
+	return fmt.Sprintf("bsize=%d namemax=%d frsize=%d blocks=%d bfree=%d bavail=%d files=%d ffree=%d favail=%d fsid=%d flag=%d total=%d free=%d",
+		v.Bsize, v.Namemax, v.Frsize, v.Blocks, v.Bfree, v.Bavail, v.Files, v.Ffree, v.Favail, v.Fsid, v.Flag, v.TotalSpace(), v.FreeSpace()), nil
+}
+
+// cliValueOps are operations run by C20 only (not part of cliOps, whose consumers C04 and C08 keep their case
+// sets): multi-step uses of a value the server reported — the offset Seek(End) derives from the ATTRS size is then
+// read from, written at and copied from — and ReadFrom fed by readers that announce boundary sizes.
+func cliValueOps() []cliOp {
+	concW := sftp.UseConcurrentWrites(true)
+	data40 := cliPatternBytes("w", 0, 40)
+	seek := func(e *cliOpEnv, off int64) (string, error) {
+		n, err := e.f.Seek(off, io.SeekEnd)
+		return fmt.Sprint("seek=", n), err
+	}
+	sized := func(name string, n int64) cliOp {
+		return cliOp{Name: "File.ReadFrom-sized-" + name, NeedFile: true, Conc: true, Opts: []sftp.ClientOption{concW}, Run: func(e *cliOpEnv) (string, error) {
+			m, err := e.f.ReadFrom(cliSized{cliSrc{bytes.NewReader(data40)}, n})
+			return fmt.Sprint(m), err
+		}}
+	}
+	return []cliOp{
+		{Name: "File.Seek-end+Read", NeedFile: true, Vars: []string{"fstat", "seq-reads"}, Run: func(e *cliOpEnv) (string, error) {
+			s, err := seek(e, -8)
+			if err != nil {
+				return s, err
+			}
+			b := make([]byte, 24)
+			n, err := e.f.Read(b)
+			if err == io.EOF {
+				err = nil
+			}
+			return fmt.Sprintf("%s %d %x", s, n, b[:max(min(n, 24), 0)]), err
+		}},
+		{Name: "File.Seek-end+Write", NeedFile: true, Vars: []string{"fstat", "conc-writes"}, Run: func(e *cliOpEnv) (string, error) {
+			s, err := seek(e, 0)
+			if err != nil {
+				return s, err
+			}
+			n, err := e.f.Write(data40[:24])
+			return fmt.Sprintf("%s %d", s, n), err
+		}},
+		{Name: "File.Seek-end+WriteTo", NeedFile: true, Conc: true, Vars: []string{"fstat", "seq-reads"}, Run: func(e *cliOpEnv) (string, error) {
+			s, err := seek(e, -30)
+			if err != nil {
+				return s, err
+			}
+			var k cliSink
+			n, err := e.f.WriteTo(&k)
+			return fmt.Sprintf("%s %d %x", s, n, k.b), err
+		}},
+		{Name: "File.Seek-end+ReadFrom", NeedFile: true, Conc: true, Vars: []string{"fstat", "conc-writes"}, Run: func(e *cliOpEnv) (string, error) {
+			s, err := seek(e, 0)
+			if err != nil {
+				return s, err
+			}
+			n, err := e.f.ReadFrom(bytes.NewReader(data40))
+			return fmt.Sprintf("%s %d", s, n), err
+		}},
+		{Name: "File.Stat+Truncate", NeedFile: true, Vars: []string{"fstat"}, Run: func(e *cliOpEnv) (string, error) {
+			// the size a Stat reported is handed back to the package
+			fi, err := e.f.Stat()
+			if err != nil || fi == nil {
+				return "", err
+			}
+			s, err := cliFiAll(fi)
+			if err != nil {
+				return s, err
+			}
+			return s, e.f.Truncate(fi.Size())
+		}},
+		sized("maxint64", 1<<63-1),
+		sized("minint64", -1<<63),
+		sized("minus1", -1),
+		sized("wraps-chunk", 1<<63-cliMaxPacket),
+	}
 }
 
 func cliClientOpts(o *cliOp) []sftp.ClientOption {
@@ -396,6 +536,8 @@ func cliClientOptsVar(o *cliOp, variant string) ([]sftp.ClientOption, error) {
 				mp = sftp.MaxPacket(cliMaxPacket)
 			case "mp-unchecked":
 				mp = sftp.MaxPacketUnchecked(cliMaxPacket)
+			case "mp-default":
+				mp = nil // no MaxPacket option at all: the package's default of 32768 (C20's value cases only)
 			default:
 				opt, ok := cliOptAtom(a)
 				if !ok {
@@ -404,6 +546,9 @@ func cliClientOptsVar(o *cliOp, variant string) ([]sftp.ClientOption, error) {
 				atoms = append(atoms, opt)
 			}
 		}
+	}
+	if mp == nil {
+		return append(append([]sftp.ClientOption{}, o.Opts...), atoms...), nil
 	}
 	return append(append([]sftp.ClientOption{mp}, o.Opts...), atoms...), nil
 }
